@@ -43,7 +43,7 @@ PROPS = {
                 rule="every split k of runs on smooth families, reduced maxcor, chains of restarts; non-trivial = a split with >=2 pairs in memory; distinct by problem seed",
                 explanation="theorem restore_diffs (exact reconstruction of the history from its differences, any abelian group, every split, reduced maxcor) + driver correspondence on restarts; the rounding gap in binary64 is explored",
                 assumptions=COMMON_ASSUME + ["'up to rounding' is compared with rtol 1e-7 while the step is macroscopic (> 1e-3 of the scale)"]),
-    "C07": dict(monitor=D2, level="proof", corr=["driver"],
+    "C07": dict(monitor=D2, level="proof", corr=["driver:cb", "driver:restart"],
                 rule="every callback state of runs: immutability, equality with the maxiter=nit run, restart continuation; non-trivial = >=2 callback states; distinct by problem seed",
                 explanation="theorem C07_snapshot_is_result (prefix lemma on the driver model) + C07_callback_inert; aliasing is checked on the implementation by the harness",
                 assumptions=COMMON_ASSUME),
